@@ -210,6 +210,15 @@ func (a *Agent) handleICMPOpenAck(peerID identity.AgentID, frame *protocol.Frame
 			return
 		}
 
+		// A session is keyed exactly once: a repeated or replayed ack must not
+		// re-derive the key from the already wiped ephemeral private key.
+		ingress.mu.RLock()
+		keyed := ingress.SessionKey != nil
+		ingress.mu.RUnlock()
+		if keyed {
+			return
+		}
+
 		sessionKey, err := deriveICMPSessionKey(&ingress.EphemeralPrivKey, ingress.EphemeralPubKey, ack.EphemeralPubKey, ack.RequestID)
 		if err != nil {
 			ingress.closePendingOpen(err)
@@ -238,6 +247,14 @@ func (a *Agent) handleICMPOpenAck(peerID identity.AgentID, frame *protocol.Frame
 	ack, err := protocol.DecodeICMPOpenAck(frame.Payload)
 	if err != nil {
 		wsSession.closePendingOpenWS(err)
+		return
+	}
+
+	// Keyed exactly once (see the ingress branch above).
+	wsSession.mu.RLock()
+	wsKeyed := wsSession.SessionKey != nil
+	wsSession.mu.RUnlock()
+	if wsKeyed {
 		return
 	}
 
